@@ -238,6 +238,9 @@ func isFileOptionDisabledForFile(
 		if disableRule.FieldOption() != bufconfig.FieldOptionUnspecified {
 			continue // FieldOption specified, not a matching rule.
 		}
+		if disableRule.FieldName() != "" {
+			continue // Field specified, the rule is scoped to that field, not a matching rule.
+		}
 		if !fileMatchConfig(imageFile, disableRule.Path(), disableRule.FullName()) {
 			continue
 		}
